@@ -13,7 +13,7 @@
 (* A case is [tpl, geoms, values, scalar, fill, dt].                       *)
 (* A cell is <<i, j>> with 0-based time bin i and frequency bin j.         *)
 (***************************************************************************)
-EXTENDS GeomModel, TLC
+EXTENDS GeomModel, PlaneGeom, TLC
 
 FMAXT == 20000                    \* MAX_FREQUENCY in frequency ticks of 250 Hz
 
@@ -85,21 +85,6 @@ MapRing(tp, rr, ring) == [k \in DOMAIN ring |-> MapPt(tp, rr, ring[k])]
 MapPart(tp, rr, pt) == Part(pt.dim, [k \in DOMAIN pt.rings |-> MapRing(tp, rr, pt.rings[k])])
 Centre(cell) == <<2 * cell[1] + 1, 2 * cell[2] + 1>>
 
-Cross(a, b, p) == (b[1] - a[1]) * (p[2] - a[2]) - (b[2] - a[2]) * (p[1] - a[1])
-Between(x, u, v) == Min(u, v) <= x /\ x <= Max(u, v)
-OnSeg(a, b, p) == Cross(a, b, p) = 0 /\ Between(p[1], a[1], b[1]) /\ Between(p[2], a[2], b[2])
-\* does the horizontal ray from p towards +x cross the segment a-b (half-open rule on y)
-RayCrosses(a, b, p) ==
-    /\ (a[2] > p[2]) # (b[2] > p[2])
-    /\ IF b[2] > a[2] THEN (p[1] - a[1]) * (b[2] - a[2]) < (p[2] - a[2]) * (b[1] - a[1])
-                      ELSE (p[1] - a[1]) * (b[2] - a[2]) > (p[2] - a[2]) * (b[1] - a[1])
-SegIdx(rings) == UNION {{<<r, k>> : k \in 1..(Len(rings[r]) - 1)} : r \in DOMAIN rings}
-\* position of a point relative to a polygon given by rings (even-odd over all rings): "in" | "out" | "edge"
-PolyStatus(rings, p) ==
-    LET S == SegIdx(rings) IN
-    IF \E x \in S : OnSeg(rings[x[1]][x[2]], rings[x[1]][x[2] + 1], p) THEN "edge"
-    ELSE IF Cardinality({x \in S : RayCrosses(rings[x[1]][x[2]], rings[x[1]][x[2] + 1], p)}) % 2 = 1 THEN "in" ELSE "out"
-
 \* closed cell [2i, 2i+2] x [2j, 2j+2] meets the closed segment a-b (separating axes: x, y, the segment's normal)
 Corners(cell) == {<<2 * cell[1] + dx, 2 * cell[2] + dy>> : dx \in {0, 2}, dy \in {0, 2}}
 SegTouches(a, b, cell) ==
@@ -107,11 +92,15 @@ SegTouches(a, b, cell) ==
     /\ Max(a[2], b[2]) >= 2 * cell[2] /\ Min(a[2], b[2]) <= 2 * cell[2] + 2
     /\ ~(\A q \in Corners(cell) : Cross(a, b, q) > 0)
     /\ ~(\A q \in Corners(cell) : Cross(a, b, q) < 0)
-PtInCell(p, cell) == Between(p[1], 2 * cell[1], 2 * cell[1] + 2) /\ Between(p[2], 2 * cell[2], 2 * cell[2] + 2)
+\* closed cell meets the closed polygon
 PartTouches(mp, cell) ==
     \/ \E x \in SegIdx(mp.rings) : SegTouches(mp.rings[x[1]][x[2]], mp.rings[x[1]][x[2] + 1], cell)
-    \/ mp.dim = 0 /\ PtInCell(mp.rings[1][1], cell)
-    \/ mp.dim = 2 /\ PolyStatus(mp.rings, Centre(cell)) # "out"
+    \/ PolyStatus(mp.rings, Centre(cell)) # "out"
+\* closed cell meets the bounding box of the part
+PartNear(mp, cell) ==
+    LET P == UNION {Range(mp.rings[r]) : r \in DOMAIN mp.rings}
+    IN  /\ (\E p \in P : p[1] <= 2 * cell[1] + 2) /\ (\E q \in P : q[1] >= 2 * cell[1])
+        /\ (\E p \in P : p[2] <= 2 * cell[2] + 2) /\ (\E q \in P : q[2] >= 2 * cell[2])
 
 (***************************************************************************)
 (* Status of a cell with respect to ONE geometry under ONE reading:        *)
@@ -120,11 +109,15 @@ PartTouches(mp, cell) ==
 (*   "either" the statement does not decide                                *)
 (* Plain mode, areal geometry: the centre rule; a centre exactly on an     *)
 (* edge of the mapped shape is undecided; parts of a multipolygon whose    *)
-(* images overlap are undecided where they overlap.  Lines and points have *)
-(* no interior: the statement's centre rule cannot mark anything, rasterio *)
-(* burns the cells they pass through; the check only demands that a cell   *)
-(* NOT TOUCHED by the mapped shape is not marked.  all_touched: cells with *)
-(* the centre inside stay in, other touched cells may be added.            *)
+(* images overlap are undecided where they overlap.  all_touched: cells    *)
+(* with the centre inside stay in, other cells the closed mapped shape     *)
+(* meets may be added, the rest stays out.                                 *)
+(* Lines and points have no interior: read literally the centre rule could *)
+(* never mark a cell, while rasterio burns a Bresenham-style pixel chain   *)
+(* (which can even contain a pixel the exact line does not meet).  The     *)
+(* statement does not say which cells a line marks, so the check only      *)
+(* demands that a cell away from the mapped shape (not meeting its         *)
+(* bounding box) is not marked.                                            *)
 (***************************************************************************)
 ArealStatus(mparts, cell) ==
     LET st == [k \in DOMAIN mparts |-> PolyStatus(mparts[k].rings, Centre(cell))]
@@ -135,10 +128,10 @@ Touched(mparts, cell) == \E k \in DOMAIN mparts : PartTouches(mparts[k], cell)
 MParts(tp, rr, g) == [k \in DOMAIN Parts(g) |-> MapPart(tp, rr, Parts(g)[k])]
 \* status with respect to an already mapped shape
 StatusM(mparts, areal, at, cell) ==
-    LET plain == IF areal THEN ArealStatus(mparts, cell)
-                 ELSE IF Touched(mparts, cell) THEN "either" ELSE "out"
-    IN  IF ~at THEN plain
-        ELSE IF plain = "in" THEN "in" ELSE IF Touched(mparts, cell) THEN "either" ELSE "out"
+    IF ~areal THEN (IF \E k \in DOMAIN mparts : PartNear(mparts[k], cell) THEN "either" ELSE "out")
+    ELSE LET plain == ArealStatus(mparts, cell) IN
+         IF ~at \/ plain = "in" THEN plain
+         ELSE IF Touched(mparts, cell) THEN "either" ELSE "out"
 StatusR(tp, rr, g, at, cell) == StatusM(MParts(tp, rr, g), Areal(g), at, cell)
 \* over both readings of the bin lookup (they differ only when a vertex lies strictly inside the last bin)
 Ambiguous(ax, v) == Coord(ax, ax.n) < v /\ v < Coord(ax, ax.n) + ax.s
@@ -209,7 +202,7 @@ PaintBoxes(c, ixs, rd, cell, k) ==
 (***************************************************************************)
 RunClauses == {"LengthMismatchRaises", "DimsAndCoordsOfTemplate", "BoxCellsExact", "CentreRule",
                "LaterOverwrites", "FillElsewhere"}
-Clauses == RunClauses \cup {"IndependentOfContents", "AllTouchedSuperset"}
+Clauses == RunClauses \cup {"IndependentOfContents", "AllTouchedSuperset", "AllTouchedSupersetLines"}
 
 WellShaped(c, r) ==
     /\ r.raised = ""
@@ -233,15 +226,18 @@ RunHolds(cl, c, r, at, tab) ==
                                           At(r, cell) \in {Val(c, m) : m \in {k \in NotOutAt(c, tab, cell) : k >= SetMax(InAt(c, tab, cell))}}
       [] cl = "FillElsewhere"   -> ok => \A cell \in CellsOf(tp) : NotOutAt(c, tab, cell) = {} => At(r, cell) = c.fill
 
-\* all_touched only ever adds cells: what geometry k marked in the plain run is marked by k or a later geometry
+\* all_touched only ever adds cells: what geometry k marked in the plain run is marked by k or a later geometry.
+\* Stated separately for cells marked by areal geometries and by lines/points (lines = TRUE).
 ValueRank(c, v) == IF \E k \in 1..NG(c) : Val(c, k) = v THEN SetMax({k \in 1..NG(c) : Val(c, k) = v}) ELSE 0
 DistinctValues(c) == /\ \A j, k \in 1..NG(c) : j # k => Val(c, j) # Val(c, k)
                      /\ \A k \in 1..NG(c) : Val(c, k) # c.fill
-Superset(c, rp, rt) ==
+Superset(c, rp, rt, lines) ==
     (LenOK(c) /\ WellShaped(c, rp) /\ WellShaped(c, rt)) =>
         \A cell \in CellsOf(c.tpl) :
-            IF DistinctValues(c) THEN ValueRank(c, At(rt, cell)) >= ValueRank(c, At(rp, cell))
-            ELSE At(rp, cell) # c.fill => At(rt, cell) # c.fill
+            IF DistinctValues(c)
+            THEN LET kp == ValueRank(c, At(rp, cell)) IN
+                 (kp > 0 /\ (Areal(c.geoms[kp]) # lines)) => ValueRank(c, At(rt, cell)) >= kp
+            ELSE (At(rp, cell) # c.fill /\ ((\A k \in 1..NG(c) : Areal(c.geoms[k])) # lines)) => At(rt, cell) # c.fill
 
 \* the clauses an observation fails (status tables computed once)
 FailingClauses(o) ==
@@ -250,6 +246,7 @@ FailingClauses(o) ==
         tt == IF LenOK(c) THEN Tab(c, TRUE) ELSE <<>>
     IN  {cl \in RunClauses : ~(RunHolds(cl, c, o.out.r1, FALSE, tp) /\ RunHolds(cl, c, o.out.r2, FALSE, tp) /\ RunHolds(cl, c, o.out.rt, TRUE, tt))}
         \cup (IF o.out.r1 = o.out.r2 THEN {} ELSE {"IndependentOfContents"})
-        \cup (IF Superset(c, o.out.r1, o.out.rt) THEN {} ELSE {"AllTouchedSuperset"})
+        \cup (IF Superset(c, o.out.r1, o.out.rt, FALSE) THEN {} ELSE {"AllTouchedSuperset"})
+        \cup (IF Superset(c, o.out.r1, o.out.rt, TRUE) THEN {} ELSE {"AllTouchedSupersetLines"})
 Holds(cl, o) == cl \notin FailingClauses(o)
 =============================================================================
